@@ -292,9 +292,73 @@ func (c11) Run(c *fw.Ctx) {
 	for _, pat := range pats {
 		args := win([]string{"sum-diff", "-src-base", srcArg, "-item", itemPrefix + pat, "-src", "*.wsp", "-dest-base", destBase, "-dest", "sum.wsp", "-archive", strconv.Itoa(sel)})
 		res := runCLI(c, args...)
-		if cliPanicked(res) || res.Exit != 0 {
+		if cliPanicked(res) || (res.Exit != 0 && res.Exit != 1) {
 			c.Violationf("sumdiff-after-sumcopy-not-clean", fw.J{"scenario": sc, "run": res.brief()}, "sum-diff right after sum-copy over the same window exited %d", res.Exit)
 			return
+		}
+		if res.Exit == 1 {
+			// "the same window" is a window in the commands' own clocks: when it touches a retention edge and a second
+			// boundary passed between the two commands, sum-diff looks at a slot sum-copy was never asked for. What is
+			// demanded is that sum-diff lists exactly the slots in which the destination deviates from the sum AT ITS CLOCK
+			// (that sum-copy wrote everything of ITS window was checked above, at sum-copy's clock).
+			out := parseOutput(res.Stdout)
+			moved := false
+			for ii, nl := range out.Nows {
+				var it string
+				for _, cand := range items {
+					if dotted(cand) == norm(nl.Name) {
+						it = cand
+					}
+				}
+				if it == "" {
+					continue
+				}
+				if nl.Now == itemNow[it] {
+					end := len(out.Diffs)
+					if ii+1 < len(out.Nows) {
+						end = out.Nows[ii+1].DiffsFrom
+					}
+					if end > nl.DiffsFrom {
+						c.Violationf("sumdiff-after-sumcopy-not-clean", fw.J{"scenario": sc, "run": res.brief(), "item": it}, "sum-diff right after sum-copy, at the same clock and over the same window, lists %d slots of item %s", end-nl.DiffsFrom, it)
+						return
+					}
+					continue
+				}
+				moved = true
+				u := until
+				if window == "default" {
+					u = nl.Now
+				}
+				wantSum, _ := expectedSum(tree, it, sel, from, u, nl.Now, c)
+				gotDest, _, err := fetchArchives(destPath(it), sel, from, u, nl.Now)
+				if err != nil {
+					panic(err)
+				}
+				var want []expDiff
+				for ai := range wantSum {
+					if wantSum[ai] == nil || gotDest[ai] == nil {
+						continue
+					}
+					for j, sv := range wantSum[ai].Values() {
+						if dv := float64(gotDest[ai].Values()[j]); !valEq(float64(sv), dv) {
+							want = append(want, expDiff{ai, int64(wantSum[ai].FromTime()) + int64(j)*int64(wantSum[ai].Step()), float64(sv), dv})
+						}
+					}
+				}
+				end := len(out.Diffs)
+				if ii+1 < len(out.Nows) {
+					end = out.Nows[ii+1].DiffsFrom
+				}
+				if !checkDiffRecords(c, out.Diffs[nl.DiffsFrom:end], want, fw.J{"scenario": sc, "run": res.brief(), "item": it, "cmd_now": nl.Now, "sumcopy_now": itemNow[it]}) {
+					return
+				}
+			}
+			if !moved {
+				c.Violationf("sumdiff-after-sumcopy-not-clean", fw.J{"scenario": sc, "run": res.brief()}, "sum-diff right after sum-copy, at the same clock and over the same window, exited 1")
+				return
+			}
+			c.Count("sumdiff_after_copy_at_a_later_second", 1)
+			continue
 		}
 		c.Count("sumdiff_clean_after_copy", 1)
 	}
